@@ -10,8 +10,11 @@ N = {'quick': 120, 'thorough': 2000}
 RULE = ('histories of 1-4 convert_variable calls on (a) five bundled example models (test_simple_odes, basic_ode, '
         'repeated_ode_for_conversion_tests, literals_for_conversion_tests, hodgkin_huxley 1952; about a quarter of the '
         'cases) and (b) generated unit-consistent ODE systems built through the API (1-3 states, 1-4 computed '
-        'variables, constants, derivatives referenced on other right-hand sides, shared subterms, families mV/V/uV and '
-        'ms/s/us). Each call: a variable that occurs in the equations (state, free, constant, computed, or a variable '
+        'variables, constants, derivatives referenced on the right-hand sides of assignments AND of other ODEs (about '
+        '45% of the generated models; pattern ode-deriv-ref converts the referenced state as INPUT, then often the '
+        'free variable), shared subterms, families mV/V/uV, ms/s/us and concentrations M/mM/uM/nM/pM/mol_per_mm3; '
+        'initial values are non-dyadic decimals from 1e-9 to 1e6 in magnitude, conversion factors from 1e-15 to 1e12; '
+        'the moved initial value is compared with original x factor at relative 1e-12). Each call: a variable that occurs in the equations (state, free, constant, computed, or a variable '
         'an earlier call returned), a target of the same dimension (other scale, or an equivalent unit = no-op), both '
         'directions, with/without move_annotations; scripted patterns state-then-time, time-then-state, same variable '
         'twice, converted-again. After every call the model is snapshotted and evaluated at 3 points. non-trivial = at '
@@ -34,7 +37,10 @@ FILES = ['test_simple_odes', 'basic_ode', 'repeated_ode_for_conversion_tests', '
          'hodgkin_huxley_squid_axon_model_1952_modified']
 CELLML_DIR = os.path.join(os.environ.get('CELLML_REPO', '/repo'), 'tests', 'cellml_files')
 BASES = ['ampere', 'candela', 'kilogram', 'kelvin', 'meter', 'mole', 'radian', 'second']
-FAMILY = {'mV': 'volt / 1000', 'uV': 'volt * 1e-6', 'ms': 'second / 1000', 'us': 'second * 1e-6'}
+FAMILY = {'mV': 'volt / 1000', 'uV': 'volt * 1e-6', 'ms': 'second / 1000', 'us': 'second * 1e-6',
+          # concentrations: mM = mmol/L = mol/m3; mol_per_mm3 = 1e9 mol/m3
+          'mM': 'mole / meter**3', 'M': 'mole / meter**3 * 1e3', 'uM': 'mole / meter**3 * 1e-3',
+          'nM': 'mole / meter**3 * 1e-6', 'pM': 'mole / meter**3 * 1e-9', 'mol_per_mm3': 'mole / meter**3 * 1e9'}
 BUILTIN = {'V': 'volt', 's': 'second', 'dl': 'dimensionless'}
 PREC = 40
 
@@ -322,9 +328,17 @@ def impl(case):
 
 
 # ---------------------------------------------------------------------------------------------- generation
-SCALES = [-6, -3, -2, -1, 1, 2, 3, 6]
+SCALES = [-12, -9, -6, -3, -2, -1, 1, 2, 3, 6, 9, 12]
+CONC = ['mM', 'M', 'uM', 'nM', 'pM', 'mol_per_mm3']
 FAMS = {'mV': ['mV', 'V', 'uV'], 'V': ['mV', 'V', 'uV'], 'uV': ['mV', 'V', 'uV'],
         'ms': ['ms', 's', 'us'], 's': ['ms', 's', 'us'], 'us': ['ms', 's', 'us']}
+FAMS.update({c: CONC for c in CONC})
+
+
+def wide_init(rng):
+    """a non-dyadic decimal between 1e-9 and 1e6 in magnitude"""
+    digits = rng.choice([2, 3, 5, 8])
+    return ('-' if rng.random() < 0.2 else '') + '%.*ge%d' % (digits, rng.uniform(1, 9.999), rng.randint(-9, 5))
 _FILE_INFO = {}
 
 
@@ -357,17 +371,18 @@ def gen_model(rng):
     """a unit-consistent ODE system: states, constants, computed variables, a derivative used on a right-hand side"""
     tu = rng.choice(['ms', 'ms', 's'])
     vars_ = [['t', tu, None, rng.choice(['time', 'time', None])]]
-    nst, nal, nco = rng.randint(1, 3), rng.randint(1, 4), rng.randint(0, 2)
+    nst, nal, nco = rng.choice([1, 2, 2, 3]), rng.randint(1, 4), rng.randint(0, 2)
     st, al, co = [], [], []
     units = {'t': tu}
     for i in range(nst):
         n = 'x%d' % i
-        units[n] = rng.choice(['mV', 'V'])
-        vars_.append([n, units[n], str(rng.randint(-5, 5)), rng.choice([n, n + '_id', None])])
+        units[n] = rng.choice(['mV', 'V', 'mM', 'uM', 'nM'])
+        init = wide_init(rng) if rng.random() < 0.6 else str(rng.randint(-5, 5))
+        vars_.append([n, units[n], init, rng.choice([n, n + '_id', None])])
         st.append(n)
     for i in range(nco):
         n = 'c%d' % i
-        units[n] = rng.choice(['mV', 'V', 'uV', 'dl'])
+        units[n] = rng.choice(['mV', 'V', 'uV', 'dl', 'mM'])
         vars_.append([n, units[n], None, rng.choice([n, None])])
         co.append(n)
     for i in range(nal):
@@ -403,11 +418,16 @@ def gen_model(rng):
             shared = (rhs, units[a])
         eqs.append([['v', a], rhs])
         defined.append(a)
-    for x in st:
+    dref_in_ode = []
+    for i, x in enumerate(st):
         ru = ['/', units[x], tu]
         rhs = ['q', num(1, 3), ru]
         for v in rng.sample(st + al + co, rng.randint(1, 2)):
             rhs = [rng.choice(['+', '+', '-']), rhs, term(v, ru)]
+        if i > 0 and rng.random() < 0.6:     # d x_i/dt = … + k * d x_j/dt for an earlier state x_j
+            y = rng.choice(st[:i])
+            rhs = [rng.choice(['+', '-']), rhs, ['*', ['q', num(), ['/', units[x], units[y]]], ['d', y, 't']]]
+            dref_in_ode.append(y)
         eqs.append([['d', x, 't'], rhs])
     for _ in range(rng.choice([0, 1, 1, 2])):
         x = rng.choice(st)
@@ -423,7 +443,7 @@ def gen_model(rng):
         x = rng.choice(st)
         vars_.append([x + '_converted', units[x], None, None])
         eqs.append([['v', x + '_converted'], ['q', '7', units[x]]])
-    info = {'states': [[x, None] for x in st], 'free': 't', 'const': co,
+    info = {'states': [[x, None] for x in st], 'free': 't', 'const': co, 'dref_in_ode': dref_in_ode,
             'comp': al + [v[0] for v in vars_ if v[0].startswith('dref')]}
     return {'vars': vars_, 'eqs': eqs}, info, units
 
@@ -446,7 +466,12 @@ def gen_steps(rng, info, units):
 
     pat = rng.choice(['state-time', 'time-state', 'twice', 'again', 'random', 'random', 'random', 'single'])
     x = rng.choice(states)
-    if pat == 'state-time':
+    if info.get('dref_in_ode') and rng.random() < 0.6:
+        pat = 'ode-deriv-ref'
+        steps = [step(rng.choice(info['dref_in_ode']), 'in')]
+        if rng.random() < 0.6:
+            steps.append(step(info['free'], 'in'))
+    elif pat == 'state-time':
         steps = [step(x, 'in'), step(info['free'], 'in')]
     elif pat == 'time-state':
         steps = [step(info['free'], 'in'), step(x, 'in')]
@@ -586,7 +611,7 @@ def compare_snap(k, snap, rep, step):
         if str(mv[0]) != iv[0] or [int(x) for x in mv[2]] != iv[2] or not close(mv[1], iv[1]):
             return where + 'variable %d: model %s, implementation %s' % (i, mv[:3], iv[:3])
         mi, mc = opt(mv[3]), opt(mv[4])
-        if (mi is None) != (iv[3] is None) or (mi is not None and not close(mi, iv[3])):
+        if (mi is None) != (iv[3] is None) or (mi is not None and not close(mi, iv[3], 1e-12)):
             return where + 'initial value of %s: model %s, implementation %s' % (iv[0], mi, iv[3])
         if (None if mc is None else str(mc)) != iv[4]:
             return where + 'cmeta id of %s: model %s, implementation %s' % (iv[0], mc, iv[4])
@@ -684,7 +709,7 @@ def oracle(case, obs):
         # ---- initial values
         if st['dir'] == 'in':
             want = None if oa[3] is None else mp(oa[3]) * cf
-            if ob_[3] is not None or (want is None) != (nb[3] is None) or (want is not None and not close(want, nb[3])):
+            if ob_[3] is not None or (want is None) != (nb[3] is None) or (want is not None and not close(want, nb[3], 1e-12)):
                 fails.append({'key': 'meta:initial-value', 'detail': who + ': %s -> original %s, new %s' % (oa[3], ob_[3], nb[3])})
         elif ob_[3] != oa[3] or nb[3] is not None:
             fails.append({'key': 'meta:initial-value', 'detail': who + ': %s -> original %s, new %s' % (oa[3], ob_[3], nb[3])})
@@ -767,6 +792,32 @@ def corpus():
                      [['v', 'r'], ['+', ['d', 'x', 't'], ['d', 'x', 't']]]]}
     out.append({'kind': 'gen', 'model': clash, 'steps': [['x', ['unit', 'V'], 'in', True], ['t', ['unit', 's'], 'in', True]],
                 'points': [{'t': '1', 'x': '2'}, {'t': '2', 'x': '3'}, {'t': '0.25', 'x': '-1'}], 'pattern': 'clash'})
+    # the right-hand side of an ODE mentions the derivative of another state (dy/dt = 0.5 + 2 dV/dt, dz/dt = y - dy/dt)
+    oderef = {'vars': [['t', 'ms', None, 'time'], ['V', 'mV', '-75.3', 'V'], ['y', 'mV', '0.4', None], ['z', 'V', '1.7e-3', 'z']],
+              'eqs': [[['d', 'V', 't'], ['+', ['q', '1.25', ['/', 'mV', 'ms']], ['*', ['q', '0.3', ['/', 'dl', 'ms']], ['v', 'y']]]],
+                      [['d', 'y', 't'], ['+', ['q', '0.5', ['/', 'mV', 'ms']], ['*', ['q', '2', 'dl'], ['d', 'V', 't']]]],
+                      [['d', 'z', 't'], ['-', ['*', ['q', '0.7', ['/', 'V', ['*', 'mV', 'ms']]], ['v', 'y']],
+                                          ['*', ['q', '0.001', ['/', 'V', 'mV']], ['d', 'y', 't']]]]]}
+    pts3 = [{'t': '1.5', 'V': '-70.1', 'y': '0.3', 'z': '0.002'}, {'t': '0.2', 'V': '12.5', 'y': '-1.1', 'z': '-0.4'},
+            {'t': '7', 'V': '3.3', 'y': '2.7', 'z': '1.9'}]
+    for steps in ([['V', ['unit', 'V'], 'in', True]],
+                  [['V', ['unit', 'V'], 'in', True], ['t', ['unit', 's'], 'in', True]],
+                  [['y', ['unit', 'uV'], 'in', False], ['V', ['unit', 'V'], 'in', True], ['t', ['unit', 'us'], 'in', True]],
+                  [['t', ['unit', 's'], 'in', True], ['V', ['unit', 'uV'], 'in', True], ['y', ['unit', 'V'], 'out', True]]):
+        out.append({'kind': 'gen', 'model': oderef, 'steps': steps, 'points': pts3, 'pattern': 'ode-deriv-ref'})
+    # tiny and huge initial values, factors 1e-9 … 1e12 (Ca_i = 7.1e-05 mM into mol/mm3)
+    conc = {'vars': [['t', 'ms', None, 'time'], ['Ca_i', 'mM', '7.1e-05', 'Ca_i'], ['Na_i', 'mM', '8.23461e3', 'Na_i'],
+                     ['K', 'nM', '-3.3333337e-9', None]],
+            'eqs': [[['d', 'Ca_i', 't'], ['*', ['q', '-0.2', ['/', 'dl', 'ms']], ['v', 'Ca_i']]],
+                    [['d', 'Na_i', 't'], ['+', ['q', '0.125', ['/', 'mM', 'ms']], ['*', ['q', '3', ['/', 'dl', 'ms']], ['v', 'Ca_i']]]],
+                    [['d', 'K', 't'], ['*', ['q', '1.5', ['/', 'nM', ['*', 'mM', 'ms']]], ['v', 'Na_i']]]]}
+    pts4 = [{'t': '1.5', 'Ca_i': '7.3e-05', 'Na_i': '8.1', 'K': '0.3'}, {'t': '0.2', 'Ca_i': '1.2e-4', 'Na_i': '9.5', 'K': '-2'},
+            {'t': '7', 'Ca_i': '3.3e-6', 'Na_i': '2.7', 'K': '1.9e3'}]
+    for steps in ([['Ca_i', ['unit', 'mol_per_mm3'], 'in', True]],
+                  [['Na_i', ['unit', 'pM'], 'in', True], ['K', ['unit', 'mol_per_mm3'], 'in', False]],
+                  [['Ca_i', ['scale', 12], 'in', True], ['Na_i', ['scale', -12], 'in', True], ['t', ['unit', 'us'], 'in', True]],
+                  [['K', ['unit', 'M'], 'in', True], [['ret', 0], ['unit', 'pM'], 'in', True]]):
+        out.append({'kind': 'gen', 'model': conc, 'steps': steps, 'points': pts4, 'pattern': 'wide-init'})
     return out
 
 
